@@ -10,6 +10,7 @@ THEOREMS = [
     'Lcdb.KeyProps.cmp_lawful', 'Lcdb.bloom_no_false_negative', 'Lcdb.filter_covers_block', 'Lcdb.filter_covers_block_ifp',
     'Lcdb.Snappy.snappy_roundtrip', 'Lcdb.Snappy.decode_of_valid_toks', 'Lcdb.footer_roundtrip', 'Lcdb.handle_roundtrip', 'Lcdb.footer_length',
     'Lcdb.filterConsts_ok',
+    'Lcdb.TableProps.build_wf', 'Lcdb.TableProps.wf_reads', 'Lcdb.TableProps.table_roundtrip', 'Lcdb.TableProps.decodeTableFile_wf', 'Lcdb.TableProps.readBlock_written',
 ]
 IMPORTS = ['LcdbModel.Props.C16']
 TARGETS = ['LcdbModel.Props.C16']
@@ -17,14 +18,12 @@ EXCLUDE = ['util/crc32c.c']
 
 
 def table_part(chk, tier, rng, unit):
-    try:
-        import gens_table
-    except ImportError:
-        return
+    import gens_table
     big = tier == 'thorough'
-    cases = gens_table.gen_table(rng, 250 if not big else 6000, big) if hasattr(gens_table, 'gen_table') else []
-    if cases:
-        run_cases(chk, cases, unit)
+    n = 60 if not big else 1500
+    cases = (gens_table.gen_table_build(rng.fork('b'), n, big) + gens_table.gen_table_scan(rng.fork('s'), n, big) +
+             gens_table.gen_table_ops(rng.fork('o'), n) + gens_table.gen_table_get(rng.fork('g'), n))
+    run_cases(chk, cases, unit)
 
 
 def run(tier):
